@@ -22,6 +22,12 @@ PURE_METHOD_NAMES = {'isdigit', 'isdecimal', 'isalpha', 'isalnum', 'isspace', 'l
                      'get', 'keys', 'values', 'items', 'index', 'count', 'copy', 'title', 'rjust', 'ljust'}
 
 
+def _anchor_ok(anchor, real):
+    """a loop clause is bound to its loop by the header text; `for x in` (no iterable) binds to the loop
+    over x whatever is iterated -- the iterable is then checked through the invariant, not the binding"""
+    return anchor == real or (anchor.endswith(' in') and real.startswith(anchor + ' '))
+
+
 class Verifier(Calls):
 
     # ------------------------------------------------------------ statements
@@ -428,10 +434,16 @@ class Verifier(Calls):
         fresh_bound = None
         if spec.get('writes') == 'fresh':
             fresh_bound = st.owner_bound if st.owner_bound is not None else st.old.alloc
-        exempt = self.havoc_loop(st, writes, stmt, fresh_bound)
+        region = None
+        w = spec.get('writes')
+        if isinstance(w, str) and w.startswith('elements:'):
+            # the loop writes only fields of objects held by this list (which it does not change itself)
+            lv = self.eval_spec_value(st, w[len('elements:'):], self.cur_spec_frame(st), old=st.old)
+            region = self.elems_snapshot(st, lv, stmt)
+        exempt = self.havoc_loop(st, writes, stmt, fresh_bound, region)
         saved_fresh_only = st.fresh_only
-        if fresh_bound is not None:
-            st.fresh_only = (fresh_bound, exempt)
+        if fresh_bound is not None or region is not None:
+            st.fresh_only = (fresh_bound, exempt, region)
         # 3. assume the invariant in the arbitrary iteration state
         for inv in invs:
             st.assume(self.eval_spec(st, inv, self.cur_spec_frame(st), old=st.old, assume=True))
@@ -810,7 +822,7 @@ class Verifier(Calls):
             return
         acc['heap'].append(('all', 'modifies %s' % mexpr, None))
 
-    def havoc_loop(self, st, writes, node, fresh_bound=None):
+    def havoc_loop(self, st, writes, node, fresh_bound=None, region=None):
         assigned = writes['locals']
         exempt = []
         probe = st.fork()
@@ -858,6 +870,8 @@ class Verifier(Calls):
                                     cur = self.harr(st, (cn, name, j), sort)
                                     r = fresh_int('fr')
                                     st.assume(z3.ForAll([r], z3.Implies(r < fresh_bound, z3.Select(na, r) == z3.Select(cur, r))))
+                                elif region is not None:
+                                    self.elem_frame_axiom(st, region, na, self.harr(st, (cn, name, j), sort))
                                 self.hset(st, (cn, name, j), na)
             elif kind in ('list', 'item'):
                 if alts and len(alts) == 1 and isinstance(alts[0], VList):
@@ -953,9 +967,9 @@ class Verifier(Calls):
             if k >= len(loops):
                 stale = 'loop %d no longer exists' % k
                 break
-            if spec.get('anchor') and spec['anchor'] != loader.loop_anchor(loops[k]):
+            if spec.get('anchor') and not _anchor_ok(spec['anchor'], loader.loop_anchor(loops[k])):
                 # try to re-bind by anchor
-                cand = [i for i, l in enumerate(loops) if loader.loop_anchor(l) == spec['anchor']]
+                cand = [i for i, l in enumerate(loops) if _anchor_ok(spec['anchor'], loader.loop_anchor(l))]
                 if len(cand) == 1 and cand[0] not in c.loops:
                     res['binding'] = 'rebound'
                     continue
@@ -1169,6 +1183,7 @@ class Verifier(Calls):
             return
         owned_ok = 'owned' in c.modifies
         allowed = {}     # key -> [ref terms]
+        regions = {}     # key -> [(items, len)]: elements of a list
         lists_ok = []
         probe = old.fork()
         probe.spec = True
@@ -1193,6 +1208,15 @@ class Verifier(Calls):
                 for k2, T in self.rec_fields(v.name).items():
                     for j in range(len(slots(parse_type(T)))):
                         allowed.setdefault(('$rec:' + v.name, k2, j), []).append(v.t)
+                continue
+            if '[*].' in mexpr:
+                # 'x[*].f': field f of every object held by list x (as of entry)
+                lexpr, fld = mexpr.split('[*].')
+                v = self.ev1(self.parse_spec(lexpr), probe)
+                region = self.elems_snapshot(old, v, fn)
+                owner, T = self.field_info(type_str(v.elem), fld, fn)
+                for j in range(len(slots(T))):
+                    regions.setdefault((owner, fld, j), []).append(region)
                 continue
             t = self.parse_spec(mexpr)
             if isinstance(t, ast.Attribute):
@@ -1220,7 +1244,8 @@ class Verifier(Calls):
             limit = old.alloc
             if owned_ok and s.owner_bound is not None:
                 limit = s.owner_bound     # closure: objects owned by the enclosing call may be modified
-            cond = AND(r >= 1, r < limit, *[r != a for a in allowed.get(key, [])])
+            cond = AND(r >= 1, r < limit, *([r != a for a in allowed.get(key, [])] +
+                                            [self.elem_not_member(g, r) for g in regions.get(key, [])]))
             goal = IMPL(cond, z3.Select(arr, r) == z3.Select(arr0, r))
             self.prove(s, goal, 'frame', fn, 'only %s modified; checked %s.%s' % (c.modifies or 'nothing', key[0], key[1]))
 
